@@ -52,6 +52,15 @@ rp = os.path.join(V, "mutants", "last_results.json")
 if os.path.exists(rp):
     for r in json.load(open(rp)):
         res.setdefault(r["patch"], []).append(r)
+# later rounds: the agent's own one-line summary (summary.json in the seed directory)
+for sid in sorted(os.listdir(os.path.join(V, "seeded"))):
+    sp = os.path.join(V, "seeded", sid, "summary.json")
+    if sid not in T and os.path.exists(sp):
+        try:
+            sj = json.load(open(sp))
+            T[sid] = (sid[:3], sj.get("summary", ""), sj.get("needs_to_manifest", ""))
+        except ValueError:
+            pass
 for sid, (prop, summary, needs) in T.items():
     d = os.path.join(V, "seeded", sid)
     if not os.path.isdir(d):
